@@ -18,7 +18,8 @@ CHECKS["C08"] = dict(category="exploration",
       text="For generated gene layouts (nested, same start, overlapping, multi-exon, origin-spanning) every query location of a small "
            "record is asked and compared with a brute-force filter; larger records are sampled; areas are built under generated "
            "interleavings of add_cds/add_protocluster/add_subregion/create_* and membership, gene->region links, definition genes and "
-           "origin sections are compared with model containment. Sampled layouts, exhaustive queries per small layout.",
+           "origin sections are compared with model containment; areas are also read in the middle of a build and must then list exactly "
+           "the genes added so far. Sampled layouts, exhaustive queries per small layout.",
       note="Trusted: C04 containment/overlap model. Candidate/region creation failures are C05/C06's business and are excluded (counted) here.",
       design="3/C08")
 CHECKS["C01"] = dict(category="exploration",
@@ -123,7 +124,8 @@ CHECKS["C12"] = dict(category="exploration",
            "several candidates/subregions, prepeptides, domains) every region is written with the real writer, the text is parsed with "
            "Biopython and compared with an independently computed extract (sequence, multiset of shifted features in both directions, area "
            "numbers 1..n in positional order, all cross references), reloaded with Record.from_genbank (exactly one region with the expected "
-           "content) and the parent record is compared before/after. 1078 deterministic placement cases plus sampled records.",
+           "content) and the parent record is compared before/after; multi-part features carry join or order operators (before, after and "
+           "across the origin) and the operator is compared too. 1078 deterministic placement cases plus sampled records.",
       note="Trusted: Biopython GenBank I/O. Equal-coordinate areas are not judged for numbering (C10's tie question).",
       design="3/C12")
 CHECKS["C05"] = dict(category="exploration",
